@@ -9,10 +9,10 @@ from mc import rgfa
 
 ID = "C19"
 LEVEL = "exploration"
-TECHNIQUE = "bounded-exhaustive enumeration of every record sequence (all multisets in all orders) over a 31-record alphabet through run_stat against the definitions computed independently"
+TECHNIQUE = "bounded-exhaustive enumeration of every record sequence (all multisets in all orders) over a 37-record alphabet through run_stat against the definitions computed independently"
 RULE = (
     "record alphabet: read in {r1, r2} x class in {tp:A:P/mapq 60, tp:A:P/mapq 0, tp:A:S/60, tp:A:I/60, no tp/60} x quality in {(4 matches of 8, "
-    "span 4/16, cg 2=2X2=2D), (8 of 8, span 8/16, cg 8=), (8 of 8, span 16/16, cg 4=4=)} + one primary record without a CIGAR field = 31 records with dyadic ratios (exact float sums); every sequence of <=N records "
+    "span 4/16, cg 2=2X2=2D), (8 of 8, span 8/16, cg 8=), (8 of 8, span 16/16, cg 4=4=)} + one primary record without a CIGAR field = 37 records with dyadic ratios (exact float sums); every sequence of <=N records "
     "(N=3 quick, 4 thorough), with and without --cigar. evaluations = stat runs; non-trivial = files with >=2 records that mix primary and "
     "secondary records or hold several records of one read."
 )
@@ -33,10 +33,10 @@ NSHARD = {"quick": 16, "thorough": 64}
 
 
 def bounds(tier):
-    return {"max_records": 3 if tier == "quick" else 4, "alphabet": 31}
+    return {"max_records": 3 if tier == "quick" else 4, "alphabet": 37}
 
 
-CLASSES = [("P", 60), ("P", 0), ("S", 60), ("I", 60), (None, 60)]
+CLASSES = [("P", 60), ("P", 0), ("S", 60), ("I", 60), (None, 60), ("P", 255)]  # 255 = "mapping quality not available": still > 0
 QUALS = [(4, 8, 0, 4, "2=2X2=2D"), (8, 8, 4, 12, "8="), (8, 8, 0, 16, "4=4=")]  # the last: columns say perfect, the CIGAR has two runs
 
 
